@@ -29,6 +29,8 @@ TYPES_DEFAULTS = [
     ("Literal['x', 'y']", [ABSENT, ("strlit", "x")]),
     ("Literal[1, 2]", [ABSENT, ("intlit", 1)]),
     ("Union[int, str]", [ABSENT, ("int", 5), ("str", "foo")]),
+    ("Optional[Union[int, str]]", [ABSENT, ("none",), ("str", "3"), ("int", 5)]),
+    ("Optional[Literal['x', 'y']]", [ABSENT, ("strlit", "x")]),
     ("Tuple[int, str]", [ABSENT, ("code", "({i}, 'x')")]),
     ("np.ndarray", [ABSENT, ("code", "np.empty({i})")]),
 ]
@@ -76,6 +78,7 @@ RETURNS = [
     ("int", "the result", ("code", "a + 1")),
     ("Tuple[int, str]", "the result.", ("code", "(1, 'x')")),
     ("int", LONG_RET, ("code", "a + 1")),
+    ("int", ABSENT, ("code", "a + 1")),
 ]
 RETURNS_RED = [RETURNS[0], RETURNS[3], RETURNS[5]]
 
